@@ -34,7 +34,10 @@ Clauses(e) ==
   IF fn = "hist" THEN
     LET s == RunHist([M |-> MIdent(3), p |-> a.p0, q |-> a.q0], a.hist, 1)
         lastact == IF a.hist = <<>> THEN "init" ELSE a.hist[Len(a.hist)].a IN
-    IF s.M = <<>> THEN {<<"ill-posed", fn, lastact>>}
+    \* outside the documented domain (anti-parallel / collinear fromto) or beyond the projection lattice (denominators
+    \* above 10^5 cannot be recovered from floats): the event decides nothing
+    IF s.M = <<>> \/ MaxDenM(s.M) > 100000 \/ MaxDenSeq(s.p) > 100000 \/ MaxDenSeq(s.q) > 100000
+      THEN {<<"ill-posed", fn, lastact>>}
     ELSE IF o.k # "ok" THEN {<<"raised", fn, lastact>>}
     ELSE Tag((IF o.M # s.M THEN {"history-matrix"} ELSE {}) \cup (IF o.p # s.p \/ o.q # s.q THEN {"history-points"} ELSE {}),
              fn, lastact)
@@ -55,8 +58,9 @@ Clauses(e) ==
     ELSE IF o.k # "ok" THEN (IF cell \in {"2d-parallel", "2d-antiparallel"} THEN {} ELSE {<<"raised", fn, cell>>})
     ELSE Tag(FromToClauses(a.u, a.v, o.v), fn, cell)
   ELSE IF fn = "tsys" THEN
-    LET cell == TSysCell(a.pv, a.pd, a.mat) IN
-    IF o.k # "ok" THEN {<<"raised", fn, cell>>}
+    LET cell == IF a.mat = NONE /\ ~FromToPosed(a.pd, a.pv) THEN "-" ELSE TSysCell(a.pv, a.pd, a.mat) IN
+    IF a.mat = NONE /\ ~FromToPosed(a.pd, a.pv) THEN {<<"ill-posed", fn, "-">>}
+    ELSE IF o.k # "ok" THEN {<<"raised", fn, cell>>}
     ELSE Tag(TSysClauses(a.pv, a.pd, a.others, a.mat, o.v), fn, cell)
   ELSE IF fn = "perp" THEN
     LET cell == DimName(Len(a.vecs[1])) IN
